@@ -74,6 +74,8 @@ def configs(run):
     sgy3 = os.path.join(d, 'r3.sgy')
     inputs.write_segy(sgy3, cube3, np.arange(11) + 10, np.arange(5) * 2 + 20, np.arange(40) * 4.0)
     out.append(('segy heuristic planesets=3', segy_route(sgy3, 16, (4, 4, -1)), 16))
+    # the SEG-Y producer's brick route (blocks cut out of the plane-set buffer and queued one by one)
+    out.append(('segy per-block (8,8,16) 2 plane sets', segy_route(sgy3, 32, (8, 8, 16)), 32))
     if not quick:
         out.append(('segy reduce_iops planesets=2', segy_route(sgy, 16, (4, 4, -1), reduce_iops=True), 16))
         out.append(('segy strip planesets=2', segy_route(sgy, 16, (4, 4, -1), header_detection='strip'), 16))
